@@ -66,12 +66,13 @@ static void c16_H(int alg, const struct c16_val *l, const struct c16_val *r, uns
 	if (!found) c16_H_missing++;
 }
 
-/* join of the KSI tree: level = max + 1; the hash is looked up only when the level is a valid level byte */
+/* join of the KSI tree: level = max + 1 (everything above 255 is reported as 256 = out of range).
+ * with_hash: also look the hash up (callers do that only when they know that all levels are <= 255). */
 static void c16_join(int alg, const struct c16_val *l, const struct c16_val *r, struct c16_val *out, int with_hash) {
 	unsigned lv = (l->level > r->level ? l->level : r->level) + 1;
-	if (with_hash && lv <= 255) c16_H(alg, l, r, lv, out);
-	else { out->len = 1 + c16_alg_len(alg); out->used = 1; out->level = lv; for (unsigned k = 0; k < C16_VMAX; k++) out->b[k] = 0; }
-	if (lv > 255) out->level = 256;   /* saturate: everything above 255 is "out of range" */
+	if (with_hash) c16_H(alg, l, r, lv, out);
+	else { out->len = 1 + c16_alg_len(alg); out->used = 1; for (unsigned k = 0; k < C16_VMAX; k++) out->b[k] = 0; }
+	out->level = lv > 255 ? 256 : lv;
 }
 
 struct c16_forest { struct c16_val slot[C16_SLOTS]; };
@@ -88,7 +89,7 @@ static unsigned c16_forest_add(struct c16_forest *f, int alg, const struct c16_v
 		if (!placed) {
 			if (!f->slot[i].used) { f->slot[i] = carry; f->slot[i].used = 1; placed = 1; }
 			else {
-				c16_join(alg, &f->slot[i], &carry, &t, with_hash && hi <= 255);
+				c16_join(alg, &f->slot[i], &carry, &t, with_hash);
 				f->slot[i].used = 0;
 				carry = t;
 				if (carry.level > hi) hi = carry.level;
@@ -106,7 +107,7 @@ static int c16_forest_close(const struct c16_forest *f, int alg, struct c16_val 
 	for (unsigned i = 0; i < C16_SLOTS; i++) {
 		if (f->slot[i].used) {
 			if (!have) { *root = f->slot[i]; have = 1; }
-			else { c16_join(alg, &f->slot[i], root, &t, with_hash && root->level <= 255); *root = t; }
+			else { c16_join(alg, &f->slot[i], root, &t, with_hash); *root = t; }
 		}
 	}
 	return have;
